@@ -870,11 +870,16 @@ func (s *state) dropIndexes(src schema.Change, t *schema.Table, drops ...*schema
 		return err
 	}
 	for i, add := range adds {
+		var reverse any = rs.Changes[i].Cmd
+		// The comment of the index is dropped with it, and should be restored as well.
+		if c := (schema.Comment{}); sqlx.Has(add.I.Attrs, &c) && c.Text != "" {
+			reverse = []string{rs.Changes[i].Cmd, rs.indexComment(src, t, add.I, c.Text, "").Cmd}
+		}
 		s.append(&migrate.Change{
 			Cmd:     rs.Changes[i].Reverse.(string),
 			Source:  src,
 			Comment: fmt.Sprintf("drop index %q from table: %q", add.I.Name, t.Name),
-			Reverse: rs.Changes[i].Cmd,
+			Reverse: reverse,
 		})
 	}
 	return nil
